@@ -391,6 +391,58 @@ type workerResult struct {
 	err    string
 	block  int
 	stderr string
+	crash  *ViolationReport
+}
+
+// crashOf inspects the output of a worker that died. A panic (or fatal error)
+// whose innermost non-runtime frame lies in easegress code - not in a harness
+// file - is behaviour of the code under test: the process running the gateway
+// would have died the same way. Anything else is an infrastructure problem.
+func crashOf(out string) (msg string, production bool) {
+	i := strings.Index(out, "panic: ")
+	if j := strings.Index(out, "fatal error: "); j >= 0 && (i < 0 || j < i) {
+		i = j
+	}
+	if i < 0 {
+		return "", false
+	}
+	rest := out[i:]
+	lines := strings.Split(rest, "\n")
+	g := -1
+	for k, l := range lines {
+		if strings.HasPrefix(l, "goroutine ") && strings.Contains(l, "[running") {
+			g = k
+			break
+		}
+	}
+	if g < 0 {
+		return strings.Join(lines[:minI(len(lines), 6)], "\n"), false
+	}
+	var frames []string
+	for k := g + 1; k < len(lines) && lines[k] != ""; k++ {
+		if strings.HasPrefix(lines[k], "\t") {
+			frames = append(frames, strings.TrimSpace(lines[k]))
+		}
+	}
+	// the panic may be raised inside a harness callback (an injected fault) and
+	// travel through easegress frames that were supposed to contain it: any
+	// easegress frame on the dying goroutine's stack makes it the code's crash
+	for _, f := range frames {
+		if strings.Contains(f, "zz_verif") || strings.Contains(f, "/simkit/") || strings.Contains(f, verifDir+"/") {
+			continue
+		}
+		if strings.Contains(f, "/pkg/") && !strings.Contains(f, "/pkg/mod/") {
+			return strings.Join(lines[:minI(len(lines), 40)], "\n"), true
+		}
+	}
+	return strings.Join(lines[:minI(len(lines), 40)], "\n"), false
+}
+
+func minI(a, b int) int {
+	if a < b {
+		return a
+	}
+	return b
 }
 
 func runWorker(bo *buildOut, cfg *CheckCfg, mode, tier string, seedBase uint64, runs int, budget time.Duration, block int, extraEnv ...string) workerResult {
@@ -409,11 +461,24 @@ func runWorker(bo *buildOut, cfg *CheckCfg, mode, tier string, seedBase uint64, 
 	var eb bytes.Buffer
 	c.Stdout, c.Stderr = &eb, &eb
 	err := c.Run()
-	wr := workerResult{block: block, stderr: tail(eb.String(), 40)}
+	wr := workerResult{block: block, stderr: tail(eb.String(), 60)}
 	if hb, e := os.ReadFile(out + ".hung"); e == nil {
 		wr.hung = strings.Fields(string(hb))
 	}
 	if err != nil {
+		if msg, prod := crashOf(eb.String()); prod && len(wr.hung) == 0 && mode == "run" {
+			var seed uint64
+			if cb, e := os.ReadFile(out + ".cur"); e == nil {
+				seed, _ = strconv.ParseUint(strings.TrimSpace(string(cb)), 10, 64)
+			}
+			class := cfg.ID + ".process-crash"
+			rp := filepath.Join(bo.replays, fmt.Sprintf("%s-%s-%d.json", cfg.ID, "process-crash", seed))
+			rb, _ := json.MarshalIndent(map[string]interface{}{"crash": true, "property": cfg.ID, "class": class, "seed": seed, "msg": msg, "tier": tier}, "", " ")
+			os.WriteFile(rp, rb, 0o644)
+			wr.crash = &ViolationReport{Class: class, Msg: "the worker process was killed by a panic in a goroutine of the code under test:\n" + msg, Seed: seed, Replay: rp, Count: 1}
+			wr.sum = &Summary{Outcomes: map[string]int{"process-crash": 1}, Runs: 1}
+			return wr
+		}
 		wr.err = fmt.Sprintf("worker block %d: %v", block, err)
 		return wr
 	}
@@ -551,6 +616,9 @@ func runCheck(id, tier string) int {
 				if wr.err != "" {
 					stop = true
 				}
+				if wr.crash != nil && !isKnown(findings, id, wr.crash.Class) && tier != "thorough" {
+					stop = true
+				}
 				if wr.sum != nil && tier != "thorough" {
 					for _, v := range wr.sum.Violations {
 						if !isKnown(findings, id, v.Class) {
@@ -611,7 +679,11 @@ func runCheck(id, tier string) int {
 		for _, e := range s.Errors {
 			infra = append(infra, e)
 		}
-		for _, v := range s.Violations {
+		vios := s.Violations
+		if wr.crash != nil {
+			vios = append(vios, *wr.crash)
+		}
+		for _, v := range vios {
 			v := v
 			if c, ok := classes[v.Class]; ok {
 				c.Count += v.Count
@@ -736,15 +808,26 @@ func replayFile(bo *buildOut, cfg *CheckCfg, path string) map[string]interface{}
 	c := exec.Command(bo.bin, "-test.run", "^"+cfg.Test+"$", "-test.cpu", "1", "-test.count", "1", "-test.timeout", "0")
 	c.Dir = bo.pkgDir
 	c.Env = append(os.Environ(), "GOMAXPROCS=1", "GODEBUG=asyncpreemptoff=1", "VERIF_MODE=replay", "VERIF_REPLAY="+path, "VERIF_OUT="+out)
+	var ob bytes.Buffer
 	if os.Getenv("VERIF_REPLAY_LOG") != "" {
 		c.Stdout, c.Stderr = os.Stdout, os.Stderr
+	} else {
+		c.Stdout, c.Stderr = &ob, &ob
 	}
-	c.Run()
+	runErr := c.Run()
 	res := map[string]interface{}{}
 	if b, err := os.ReadFile(out); err == nil {
 		json.Unmarshal(b, &res)
 	} else {
 		res["error"] = "replay produced no result"
+		var rf struct {
+			Crash bool `json:"crash"`
+		}
+		if rb, e := os.ReadFile(path); e == nil && json.Unmarshal(rb, &rf) == nil && rf.Crash && runErr != nil {
+			if msg, prod := crashOf(ob.String()); prod {
+				res = map[string]interface{}{"reproduced": true, "same_hash": true, "crash": true, "msg": msg}
+			}
+		}
 	}
 	return res
 }
